@@ -1416,7 +1416,7 @@ func (s *Switch) teardownCircuit(pkt *htlcPacket) error {
 		log.Warnf("Failed to tear down circuit (%s, %d) <-> (%s, %d) "+
 			"with payment_hash=%v using %s pkt", pkt.incomingChanID,
 			pkt.incomingHTLCID, pkt.outgoingChanID,
-			pkt.outgoingHTLCID, pkt.circuit.PaymentHash, pktType)
+			pkt.outgoingHTLCID, paymentHash, pktType)
 
 		return err
 	}
